@@ -123,6 +123,21 @@ def rawLines (s : Bytes) : List Bytes := rawLinesAux s []
 /-- … each line cut at its first NUL (callers use them as C strings). -/
 def lines (s : Bytes) : List Bytes := (rawLines s).map cstr
 
+/-- byte-wise `strcmp` order -/
+def bytesLt : Bytes → Bytes → Bool
+  | [], [] => false
+  | [], _ :: _ => true
+  | _ :: _, [] => false
+  | a :: as, b :: bs => if a < b then true else if b < a then false else bytesLt as bs
+
+/-- insertion sort in ascending `strcmp` order (stands for `qsort` with a
+    `strcmp` comparator; theorems quantify over any correct sort) -/
+def insertSorted (x : Bytes) : List Bytes → List Bytes
+  | [] => [x]
+  | y :: ys => if bytesLt y x then y :: insertSorted x ys else x :: y :: ys
+
+def sortBytes (l : List Bytes) : List Bytes := l.foldr insertSorted []
+
 /-- Hex encoding for the driver protocol. -/
 def hexDigit (n : Nat) : Char :=
   if n < 10 then Char.ofNat (48 + n) else Char.ofNat (87 + n)
